@@ -173,9 +173,10 @@ PROPS["C19"] = {
     "shards": {"quick": 16, "thorough": 32},
     "exhaustive": {"quick": [], "thorough": []},
     "proved_scope": "totality of step/exec (termination checker); the step frame (guards, fetch, decode handling, mnemonic check, counter, end test, "
-                    "hook chain logic) never crashes; undecodable/unfetchable/unsupported/unimplemented => error for every state; access primitives never crash",
-    "sampled_only_scope": "crash sites inside instruction handlers (operand-kind expectations on iced's output) are modelled as panic outcomes and "
-                          "compared with the implementation on fuzzed byte strings; the decoder itself is exercised only",
+                    "hook chain logic) never crashes; undecodable/unfetchable/unsupported/unimplemented => error for every state; access primitives never crash; "
+                    "handler crashes have six enumerated causes, none of them arithmetic or memory (exec_crash over the whole dispatch table)",
+    "sampled_only_scope": "that iced's decoded instructions always have the operand shapes under which handler_crash_causes excludes a crash "
+                          "(every generated byte string goes through the decoder and both sides); the decoder itself is exercised only",
     "assumptions": ["iced-x86 decodes deterministically and terminates on every byte string (exercised on every case, not modelled)"],
 }
 
